@@ -15,7 +15,8 @@ META = dict(
     level_text=('Theorems (any forest, any node, deep or shallow, with or without memo): the clone has the same erasure (keys, leaves, classes), the same flags on every '
                 'corresponding node, is a well-formed tree of fresh node ids, and the step leaves every existing root exactly as it was; a shallow clone shares exactly the '
                 'leaf objects; the frame theorem (proved): every operation addressed inside one root and handed values from some roots leaves every OTHER root the user holds '
-                'exactly as it was, for every later history, hence no later mutation of either copy is observable through the other. Tie: correspondence on generated histories '
+                'exactly as it was, for every later history, hence no later mutation of either copy is observable through the other -- also over the slice / merge operations '
+                'of the C02 extension of the model (C07_independence_full_surface, C07_independence_history_full_surface). Tie: correspondence on generated histories '
                 '(clone, copy.copy, copy.deepcopy, Dict.copy followed by mutations of either copy), flag-combination sweep (exhaustive), direct oracle on every step.'),
     level_note=('Trusted: Coq kernel; extraction cross-checked against vm_compute; driver/generator. Not modelled: value_spec binding of the copy (C03), pg.Ref leaves '
                 '(shared by design), geno/hyper _sym_clone overrides, clone(override=...).'),
